@@ -7,7 +7,7 @@ from typing import Optional
 
 from cryptography.hazmat.primitives.ciphers.aead import AESGCM
 
-from ..buffer import Buffer
+from ..buffer import Buffer, size_uint_var
 from .rangeset import RangeSet
 
 PACKET_LONG_HEADER = 0x80
@@ -622,16 +622,47 @@ def pull_ack_frame(buf: Buffer) -> tuple[RangeSet, int]:
     return rangeset, delay
 
 
-def push_ack_frame(buf: Buffer, rangeset: RangeSet, delay: int) -> int:
-    ranges = len(rangeset)
-    index = ranges - 1
+def push_ack_frame(
+    buf: Buffer, rangeset: RangeSet, delay: int, max_size: Optional[int] = None
+) -> int:
+    """
+    Write the body of an ACK frame and return the number of ranges written.
+
+    If `max_size` is given, only the most recent ranges which fit in that many
+    bytes are written, see RFC 9000 section 13.2.3. The range holding the
+    largest packet number is always written.
+    """
+    index = len(rangeset) - 1
     r = rangeset[index]
+
+    # determine the oldest range which still fits
+    first = 0
+    if max_size is not None:
+        size = (
+            size_uint_var(r.stop - 1)
+            + size_uint_var(delay)
+            + size_uint_var(index)
+            + size_uint_var(r.stop - 1 - r.start)
+        )
+        first = index
+        start = r.start
+        while first > 0:
+            older = rangeset[first - 1]
+            size += size_uint_var(start - older.stop - 1) + size_uint_var(
+                older.stop - older.start - 1
+            )
+            if size > max_size:
+                break
+            first -= 1
+            start = older.start
+
+    ranges = index - first + 1
     buf.push_uint_var(r.stop - 1)
     buf.push_uint_var(delay)
-    buf.push_uint_var(index)
+    buf.push_uint_var(index - first)
     buf.push_uint_var(r.stop - 1 - r.start)
     start = r.start
-    while index > 0:
+    while index > first:
         index -= 1
         r = rangeset[index]
         buf.push_uint_var(start - r.stop - 1)
